@@ -28,6 +28,9 @@ const (
 	ckAfterBoundary  // 1 ms past the next boundary
 	ckPlusInterval   // + one interval
 	ckPlus3Intervals // + three intervals (idle across whole intervals)
+	ckPlus100us      // + 100 microseconds
+	ckBefore100us    // to 100 microseconds before the next boundary
+	ckAfter100us     // 100 microseconds past the next boundary
 )
 
 type OutageOp struct {
@@ -94,7 +97,7 @@ func genRollBase(rt *rapid.T, thorough bool, maxWriters int) *RollScn {
 	}
 	nc := rapid.IntRange(0, 10).Draw(rt, "nclock")
 	for i := 0; i < nc; i++ {
-		s.Clock = append(s.Clock, rapid.SampledFrom([]int{ckPlus1ms, ckPlus100ms, ckBeforeBoundary, ckBeforeBoundary, ckToBoundary, ckAfterBoundary, ckAfterBoundary, ckPlusInterval, ckPlus3Intervals}).Draw(rt, "clock"))
+		s.Clock = append(s.Clock, rapid.SampledFrom([]int{ckPlus1ms, ckPlus100ms, ckBeforeBoundary, ckBeforeBoundary, ckToBoundary, ckAfterBoundary, ckAfterBoundary, ckPlusInterval, ckPlus3Intervals, ckPlus100us, ckBefore100us, ckBefore100us, ckAfter100us, ckAfter100us}).Draw(rt, "clock"))
 	}
 	return s
 }
@@ -124,9 +127,15 @@ func clockEnv(x *Exec, s *RollScn, boundaries *int) {
 			d = iv
 		case ckPlus3Intervals:
 			d = 3 * iv
+		case ckPlus100us:
+			d = 100 * time.Microsecond
+		case ckBefore100us:
+			d = next.Sub(now) - 100*time.Microsecond
+		case ckAfter100us:
+			d = next.Sub(now) + 100*time.Microsecond
 		}
 		if d <= 0 {
-			d = time.Millisecond
+			d = 50 * time.Microsecond
 		}
 		if !now.Add(d).Truncate(iv).Equal(now.Truncate(iv)) {
 			*boundaries++
@@ -388,7 +397,7 @@ func (c19) Decode(raw json.RawMessage) (any, error) {
 func (c19) Gen(rt *rapid.T, thorough bool) any {
 	s := genRollBase(rt, thorough, 4)
 	if rapid.IntRange(0, 5).Draw(rt, "static") == 0 {
-		s.Static = rapid.SampledFrom([]string{"file-closed", "file-unstarted", "console-fails", "rolling-unstarted"}).Draw(rt, "static_kind")
+		s.Static = rapid.SampledFrom([]string{"file-closed", "file-unstarted", "console-fails", "console-fails-zero", "rolling-unstarted"}).Draw(rt, "static_kind")
 		return s
 	}
 	for len(s.Clock) < 3 {
@@ -603,6 +612,11 @@ func runStaticFailing(x *Exec, s *RollScn) {
 		l, raw = fl, fl.Write
 	case "console-fails":
 		x.FS.AddFault(&simos.FaultRule{Op: "write", Prefix: "/dev/stdout", Err: syscall.EIO, Count: -1, Short: 3})
+		cl := &log.ConsoleLogger{LoggerBase: log.LoggerBase{Level: full}, ConsoleAppender: log.ConsoleAppender{Layout: lay}}
+		l, raw = cl, cl.Write
+	case "console-fails-zero":
+		// the stream accepts nothing at all: every write returns (0, error)
+		x.FS.AddFault(&simos.FaultRule{Op: "write", Prefix: "/dev/stdout", Err: syscall.ENOSPC, Count: -1, Short: 0})
 		cl := &log.ConsoleLogger{LoggerBase: log.LoggerBase{Level: full}, ConsoleAppender: log.ConsoleAppender{Layout: lay}}
 		l, raw = cl, cl.Write
 	case "rolling-unstarted":
